@@ -79,6 +79,8 @@ def worker(spec):
         frames_with_ctx = 0
         for i, fr in enumerate(st.frames):
             exp = run.truth(id(fr.pyframe))
+            if len(exp) >= 11:
+                res.count("obs_with_11_or_more_active_contexts")
             if exp:
                 nontrivial = True
                 frames_with_ctx += 1
